@@ -405,7 +405,10 @@ def make_fixture(env, fid, spec):
             env.log("fixture_setup", fid)
             self.addCleanup(self._logged_cleanup)
             self._live = []
+            self._own_details = {}
             for name, h in spec.get("details", []):
+                if spec.get("late_fill"):
+                    continue          # attached by the test while it uses the fixture (see the "fixture" op)
                 if spec.get("live"):
                     # the callback hands out the fixture's own chunk list, emptied again at cleanUp
                     from testtools.content import Content
@@ -429,6 +432,10 @@ def make_fixture(env, fid, spec):
             how = spec.get("setup", "ok")
             if how != "ok":
                 _do_raise(env, None, ["raise", how, "FX:" + fid])
+
+        if spec.get("late_fill"):
+            def getDetails(self):
+                return self._own_details          # the live mapping itself, not a snapshot
 
         if spec.get("setup_override"):
             def setUp(self):
@@ -550,6 +557,9 @@ def run_actions(env, case, actions, where):
             env.log("use_fixture", a[1])
             case.useFixture(f)
             env.log("fixture_used", a[1])
+            if a[2].get("late_fill"):
+                for name, h in a[2].get("details", []):
+                    f._own_details[name] = _content([h], "bin")
         elif op == "expect":
             eid, ok, details = a[1], a[2], a[3]
             if not ok:
